@@ -9,6 +9,28 @@ NOTES = {  # seeds the checks missed at first, and what was added to catch them
     "C22-a1": "after delivery order B (altered gram ahead of its zeroth gram)", "C22-a2": "after the two-signer scenarios",
     "C27-a2": "after `Load` (constructor bulk load) was added to Namer.tla", "C29-a1": "after segment `headx`",
     "C29-a2": "after FilerReopen.tla (lives with reopen)", "C14-a1": "after ReqReuse.tla (request sequences over one Requester)",
+    # round 2 ("less obvious places")
+    "C01-b1": "after duplicate doers in a DoDoer's extend were added to configuration `dd-ext-fault`",
+    "C02-b1": "after every fourth behaviour was run through ado() and un-exited doers at the end of a run became a C02 verdict",
+    "C03-b2": "after start tymes below zero (offset of the concretisation) were added",
+    "C04-b2": "after the run styles (doers pre-wound to another tymist) were applied to C04",
+    "C05-b1": "after configurations `ext-lim`, `dd-ext-lim` (done flags of doers added while running)",
+    "C07-b2": "after the wall clock origin was varied so that a deadline is exactly 0.0",
+    "C09-b2": "after the connection as a real Server / ServerTls builds and services it was added as an endpoint kind",
+    "C10-b1": "after action `Again` (the whole service entry point after a cut-off / aborted handshake)",
+    "C11-b1": "after action `OpenFail` (bind failure on reopen)",
+    "C12-b1": "after `Wind` events (Server.wind onto another Tymist) were added to Idle.tla",
+    "C13-b2": "rebased onto fix 63968b1 (seeded/C13-b2 holds the rebased patch); caught by the real-scale long-line messages "
+              "added together with the line length limit in LineFrame.tla",
+    "C14-b2": "after the server side parser was reused over a connection and header field sets were compared",
+    "C15-b1": "after event lines around MAX_LINE_SIZE at real scale", "C15-b2": "after empty id fields (`id0`, `id0n`) in Sse.tla",
+    "C16-b1": "after the grammar's well formed messages (chunk extensions, trailers) became valid-class inputs",
+    "C17-b2": "after a latin-1 trailer value", "C19-b1": "after application tags (reply=), falsy ones among them",
+    "C19-b2": "after clients made from a ready tcp connector without scheme",
+    "C20-b1": "after senders reconfigured on the fly (`.curt` switched on a live Memoer)",
+    "C20-b2": "after signer ids of all three kinds (rotated key)", "C21-b2": "after `Bounce` (close + reopen of the transport) and `Greedy`",
+    "C22-b1": "after a validly signed undecodable memo under a reused memo id", "C22-b2": "after signer ids of all three kinds",
+    "C30-b2": "after runs ended by faults / keyboard interrupt were added to C30",
     "C11-a2": "patch no longer applies after the follow-up repair of ServerTls.close; the re-based demo passes on the patched "
               "tree too (garbage collection closes the socket) - kept as own mutant, caught by the single-peer deep histories",
 }
